@@ -5,7 +5,8 @@ import socket
 import os
 import collections
 import heapq
-from .syncobj import SyncObjConsumer, replicated
+from .syncobj import SyncObjConsumer, SyncObjException, replicated
+from .config import FAIL_REASON
 
 
 class ReplCounter(SyncObjConsumer):
@@ -519,7 +520,14 @@ class ReplLockManager(object):
         """
         attemptTime = time.time()
         if sync:
-            acquireRes = self.__lockImpl.acquire(lockID, self.__selfID, attemptTime, callback=callback, sync=sync, timeout=timeout)
+            try:
+                acquireRes = self.__lockImpl.acquire(lockID, self.__selfID, attemptTime, callback=callback, sync=sync, timeout=timeout)
+            except SyncObjException as e:
+                if e.errorCode in ('Timeout', FAIL_REASON.LEADER_CHANGED):
+                    # The outcome is open: the command may still be committed later.
+                    # The caller is told that it failed, so it must not keep the lock.
+                    self.__lockImpl.release(lockID, self.__selfID)
+                raise
             acquireTime = time.time()
             if acquireRes:
                 if acquireTime - attemptTime > self.__autoUnlockTime / 2.0:
@@ -533,6 +541,10 @@ class ReplLockManager(object):
                 if acquireTime - attemptTime > self.__autoUnlockTime / 2.0:
                     acquireRes = False
                     self.__lockImpl.release(lockID, self.__selfID, sync=False)
+            elif errCode == FAIL_REASON.LEADER_CHANGED:
+                # The outcome is open (the command may be committed by the new leader):
+                # the caller is told that it failed, so it must not keep the lock.
+                self.__lockImpl.release(lockID, self.__selfID, sync=False)
             callback(acquireRes, errCode)
 
         self.__lockImpl.acquire(lockID, self.__selfID, attemptTime, callback=asyncCallback, sync=sync, timeout=timeout)
